@@ -124,7 +124,9 @@ func GeneratePBBinaryMessage(w io.Writer, m protoreflect.ProtoMessage) error {
 	if m == nil {
 		return fmt.Errorf("module is nil")
 	}
-	bytes, err := proto.Marshal(m)
+	// Deterministic: map entries are written in sorted key order, so the same model always
+	// serialises to the same bytes (the text and JSON writers sort their keys as well).
+	bytes, err := proto.MarshalOptions{Deterministic: true}.Marshal(m)
 	if err != nil {
 		return err
 	}
